@@ -114,11 +114,12 @@ P_DropBarrier(b) ==
     /\ bars' = [bars EXCEPT ![b].live = FALSE]
     /\ UNCHANGED <<trigs, open, progress, viol>>
 
-\* source s enters trigger(v) (sync = FALSE) or trigger_noop(v) (sync = TRUE)
-P_Trig(s, v, sync) ==
+\* source s enters trigger(v) (sync = FALSE) or trigger_noop(v) (sync = TRUE);
+\* unw = the call is made from a destructor while the source is already unwinding from a panic
+P_Trig(s, v, sync, unw) ==
     /\ open[s] = 0
     /\ LET e == Earliest(v) IN
-       trigs' = Append(trigs, [src |-> s, v |-> v, sync |-> sync, exp |-> e, rx |-> RxOf(e),
+       trigs' = Append(trigs, [src |-> s, v |-> v, sync |-> sync, unw |-> unw, exp |-> e, rx |-> RxOf(e),
                                st |-> "open", rep |-> FALSE, h |-> "none"])
     /\ open' = [open EXCEPT ![s] = Len(trigs) + 1]
     /\ UNCHANGED <<bars, progress, viol>>
@@ -144,7 +145,7 @@ P_Ret(s, prog) ==
     /\ LET t == open[s] IN
        /\ trigs' = [trigs EXCEPT ![t].st = "ret"]
        /\ viol' = viol \cup (IF MustSuspend(t) THEN {"SuspendHolds"} ELSE {})
-                       \cup (IF trigs[t].rx = "Panic" THEN {"PanicPanics"} ELSE {})
+                       \cup (IF trigs[t].rx = "Panic" /\ ~trigs[t].unw THEN {"PanicPanics"} ELSE {})
                        \cup (IF prog # progress[s] + 1 THEN {"Counter"} ELSE {})
     /\ open' = [open EXCEPT ![s] = 0]
     /\ progress' = [progress EXCEPT ![s] = prog]
@@ -198,7 +199,8 @@ ResumesAfterDrop == "ResumesAfterDrop" \notin viol
 \* "a Noop barrier never blocks it" / unmatched triggers "return immediately"
 NeverBlocks == "NeverBlocks" \notin viol
 
-\* "a Panic barrier panics the triggering code"
+\* "a Panic barrier panics the triggering code".  Tolerance: for a trigger issued while the triggering code is
+\* already unwinding from a panic (a second panic there is a double panic) the outcome is left open.
 PanicPanics == "PanicPanics" \notin viol
 
 \* no other trigger panics (a panicking Noop / unmatched trigger does not
